@@ -127,7 +127,11 @@ func parentMain() int {
 		"LUNAR_PROXY_PROCESSORS_DIRECTORY="+filepath.Join(repo, "proxy/src/services/lunar-engine/streams/processors/registry"),
 		"LUNAR_HUB_URL=", "LUNAR_API_KEY=", "TENANT_NAME=verif",
 	)
-	cmd := exec.Command(os.Args[0], os.Args[1:]...)
+	self, err := os.Executable()
+	if err != nil {
+		self = os.Args[0]
+	}
+	cmd := exec.Command(self, os.Args[1:]...)
 	cmd.Env = env
 	cmd.Dir = root // stray relative files written by the engine land in the scratch tree
 	cmd.Stdin, cmd.Stdout, cmd.Stderr = os.Stdin, os.Stdout, os.Stderr
